@@ -40,9 +40,20 @@ def thr(prog: Program, res: Result) -> None:
         res.undecided("THR", fi.short, desc, prog.loc(fi), "threshold variable not found")
         return
     e = defs["eigsumthresh"][0].value
+    # max(T, 0) == T for the non-negative T = tol^2 ||X||^2 / d: look through it
+    if isinstance(e, ast.Call) and not e.keywords and len(e.args) == 2 and (dotted(e.func) or "").split(".")[-1] in ("max", "maximum", "fmax"):
+        rest = [a for a in e.args if not (isinstance(a, ast.Constant) and not isinstance(a.value, bool) and a.value == 0)]
+        if len(rest) == 1:
+            e = rest[0]
     roles = {"tol": tol, "normxsqr": nx2, "d": d}
     ok, how = A.formula_equals(e, roles, tol**2 * nx2 / d)
     where = prog.loc(fi, defs["eigsumthresh"][0])
+    absolute = A.absolute_operands(e, {"normxsqr", "input_tensor"})
+    if absolute:
+        # a floor / cap / offset that does not scale with the data: for data small (or large) enough the threshold is not
+        # tol^2 ||X||^2 / d, so the discarded energy is no longer bounded by tol^2 ||X||^2
+        ok, how = False, (f"the threshold is combined with `{ast.unparse(absolute[0])}`, which does not scale with ||X||^2: for data of "
+                          "small enough magnitude the threshold is not tol^2 ||X||^2 / d and the error bound is lost")
     if ok is True:
         res.ok("THR", fi.short, desc, where, how)
     elif ok is False:
